@@ -5,6 +5,8 @@ import json
 from harness.core import pipeline, gallina as G, values as V
 from harness.jsonclass_support import world as W, descgen as D, watch
 
+from harness.jsonclass_support import anchors
+
 PROP_ID = "C08"
 MANIFEST_ENTRY = {
     "text": ("Theorems (Coq, closed under the global context) over all payload values about a Gallina model of the "
@@ -21,8 +23,7 @@ MANIFEST_ENTRY = {
     "technique": "Coq proof over a hand-written executable model + differential correspondence check (vm_compute) + property oracle",
     "design_ref": "DESIGN.md 4/C08",
 }
-ANCHOR_RANGES = [("jsonrpclib/jsonclass.py", 244, 312), ("jsonrpclib/jsonrpc.py", 1257, 1259), ("jsonrpclib/jsonrpc.py", 1308, 1347),
-                 ("jsonrpclib/SimpleJSONRPCServer.py", 284, 297)]
+ANCHOR_RANGES = anchors.func_ranges([("jsonrpclib/jsonclass.py", "load"), ("jsonrpclib/jsonrpc.py", "load"), ("jsonrpclib/jsonrpc.py", "loads"), ("jsonrpclib/SimpleJSONRPCServer.py", "SimpleJSONRPCDispatcher._marshaled_dispatch")])
 RULE = ("names stream: every string of length <= 2 (thorough: <= 3, 11 154 names) over a 22-symbol alphabet (letters, digit, _ . "
         "space - / : NUL newline, e-acute, full-width A, Arabic-Indic zero, combining acute, astral letter) as the class name of an "
         "otherwise well-formed descriptor, use_jsonclass on and off, plus random long names; payload stream: requests / responses "
